@@ -167,4 +167,54 @@ theorem tri_echoMore (P : Ctl3) :
         intro hp; have := (a.httpH hp).1; rw [hv] at this; cases this
     · exact Tri.skip'.weaken (fun _ h => h) (fun s h => ⟨Or.inl h.1.1, h.1.2.2.2⟩)
 
+theorem aux_of_done {s : St} (h : s.parsing = .done) : Aux s := by
+  constructor
+  · intro h'; rw [h] at h'; cases h'
+  · intro h'; rw [h] at h'; cases h'
+  · intro h'; rw [h] at h'; cases h'
+
+theorem tri_noBypass (P : Ctl) : Tri (fun s => s.ctl P) noBypassNoRepeat (fun s => s.canStartBypass = false ∧ s.ctl P) := by
+  apply Tri.atomic
+  intro s m a p
+  exact ⟨keeps_noBypassNoRepeat.1 s m, Aux.of_sameAux (s := s) ⟨rfl, rfl, rfl, rfl, rfl⟩ a, rfl, p⟩
+
+theorem tri_sendAnswer (P : Ctl) : Tri (fun s => s.canStartBypass = false ∧ s.ctl P) sendAnswer (fun s => s.ctl P) := by
+  apply Tri.atomic
+  intro s m a ⟨hb, p⟩
+  unfold sendAnswer
+  split
+  · exact ⟨m, a, p⟩
+  · split
+    · exact ⟨m.setAnswer _ (fun _ h => by cases h) hb, Aux.of_sameAux (s := s) ⟨rfl, rfl, rfl, rfl, rfl⟩ a, p⟩
+    · rename_i hh
+      refine ⟨m.setAnswer _ (fun h => ?_) hb, Aux.of_sameAux (s := s) ⟨rfl, rfl, rfl, rfl, rfl⟩ a, p⟩
+      rw [h] at hh; exact absurd rfl (by simpa using hh)
+
+/-- startSending(): whatever is known about parsing/head/uob stays; a virgin sender may finish -/
+theorem tri_startSending (P : Ctl3) (S : Sending → Prop) (hS : S .virgin → S .done) :
+    Tri (fun s => s.ctl (fun p sd h _ u => S sd ∧ P p h u)) startSending (fun s => s.ctl (fun p sd h _ u => S sd ∧ P p h u)) := by
+  unfold startSending
+  apply Tri.seq' (Q := fun s => s.ctl (fun p sd h _ u => S sd ∧ P p h u))
+  · apply Tri.seq' (Q := fun s => s.canStartBypass = false ∧ s.ctl (fun p sd h _ u => S sd ∧ P p h u))
+    · exact tri_noBypass _
+    · exact tri_sendAnswer _
+  · apply Tri.cond'
+    · refine (tri_echoMore (fun p h u => S .virgin ∧ P p h u)).weaken (fun s h => ?_) (fun s h => ?_)
+      · have hv : s.sending = .virgin := eq_of_beq h.2
+        have h1 := h.1
+        unfold St.ctl at h1
+        rw [hv] at h1
+        exact ⟨h1.1, h1.2⟩
+      · unfold St.ctl at h ⊢
+        rcases h.1 with hv | hd
+        · rw [hv]; exact ⟨h.2.1, h.2.2⟩
+        · rw [hd]; exact ⟨hS h.2.1, h.2.2⟩
+    · exact (Tri.must' _).weaken (fun _ h => h) (fun _ h => h.1.1)
+
+theorem keeps_planSending : Keeps planSending := by
+  unfold planSending
+  with_reducible apply keeps_seq
+  · keeps
+  · sorry
+
 end SquidModel.Icap
